@@ -110,8 +110,9 @@ theorem applySettings_ctl : ∀ (ps : List (Nat × Nat)) (c : H2Conn), AllCtl (a
     · split
       · split
         · exact sendGoaway_ctl _ _
-        · simp only
-          exact AllCtl.append (AllCtl.map_rst _ _) (ih _)
+        · split
+          · exact sendGoaway_ctl _ _
+          · exact ih _
       · split
         · split
           · exact sendGoaway_ctl _ _
@@ -361,16 +362,88 @@ theorem applySettings_len : ∀ (ps : List (Nat × Nat)) (c : H2Conn),
     · split
       · split
         · simp
-        · simp only
-          rw [ih]
-          simp only
-          rw [foldl_rstState_len]
-          simp
+        · split
+          · simp
+          · rw [ih]; simp
       · split
         · split
           · simp
           · rw [ih]
         · rw [ih]
+
+/-- a connection error raised while no error GOAWAY is out changes `goaway` -/
+theorem sendGoaway_goaway (c : H2Conn) (code : Nat) (hc : code ≠ 0) (hg : c.goaway ≤ 0) :
+    (sendGoaway c code).1.goaway = (code : Int) := by
+  have hgr : (goawayResets c code).1.goaway = c.goaway := by
+    unfold goawayResets
+    simp only [hc, ne_eq, not_false_eq_true, if_true]
+    generalize c.streams.filter (fun s => s.st ≠ .closed) = l
+    induction l generalizing c with
+    | nil => rfl
+    | cons x xs ih =>
+      simp only [List.foldl_cons]
+      rw [ih]
+      · unfold rstState
+        split
+        · rfl
+        · simp only [updStrm]; split <;> rfl
+      · unfold rstState
+        split
+        · exact hg
+        · simp only [updStrm]; split <;> exact hg
+  unfold sendGoaway
+  simp only
+  have : ¬ ((goawayResets c code).1.goaway ≠ 0 ∧ ((goawayResets c code).1.goaway > 0 ∨ code = 0)) := by
+    rw [hgr]; intro ⟨_, h⟩; rcases h with h | h
+    · omega
+    · exact hc h
+  rw [if_neg this]
+  simp [hc]
+
+/-- SETTINGS parameters that raise no connection error emit nothing -/
+theorem applySettings_quiet : ∀ (ps : List (Nat × Nat)) (c : H2Conn), c.goaway ≤ 0 →
+    (applySettings c ps).1.goaway = c.goaway → (applySettings c ps).2 = [] := by
+  intro ps
+  induction ps with
+  | nil => intro c _ _; simp [applySettings]
+  | cons p rest ih =>
+    intro c hg hok
+    obtain ⟨k, v⟩ := p
+    have hne : ∀ code : Nat, code ≠ 0 → (sendGoaway c code).1.goaway = c.goaway → False := by
+      intro code hc h
+      rw [sendGoaway_goaway c code hc hg] at h
+      have : (code : Int) > 0 := by omega
+      omega
+    unfold applySettings at hok ⊢
+    split at hok
+    · exact absurd hok (fun h => hne _ (by decide) h)
+    · rename_i h1
+      simp only [h1, if_false]
+      split at hok
+      · rename_i h2
+        simp only [h2, if_true]
+        split at hok
+        · exact absurd hok (fun h => hne _ (by decide) h)
+        · rename_i h3
+          simp only [h3, if_false]
+          split at hok
+          · exact absurd hok (fun h => hne _ (by decide) h)
+          · rename_i h4
+            simp only [h4]
+            exact ih _ hg hok
+      · rename_i h2
+        simp only [h2, if_false]
+        split at hok
+        · rename_i h5
+          simp only [h5, if_true]
+          split at hok
+          · exact absurd hok (fun h => hne _ (by decide) h)
+          · rename_i h6
+            simp only [h6, if_false]
+            exact ih _ hg hok
+        · rename_i h5
+          simp only [h5, if_false]
+          exact ih _ hg hok
 
 theorem recvSettings_len (c : H2Conn) (ack : Bool) (sid : Nat) (ps : List (Nat × Nat)) (junk : Nat) :
     (recvSettings c ack sid ps junk).1.streams.length = c.streams.length := by
